@@ -523,7 +523,7 @@ func (fr *Frame) havocClause(n *vnode, m *Clause, env *SpecEnv) {
 			}
 		}
 	case "call":
-		if (e.Name == "cursor" || e.Name == "fpos") && len(e.Args) == 1 {
+		if ghostFields[e.Name] && len(e.Args) == 1 {
 			a := env.eval(e.Args[0])
 			comp := "G$" + e.Name
 			cur := x.comp(n.heap, comp, SArray(SInt, SInt))
@@ -695,7 +695,7 @@ func (x *Exec) modClauseTargets(m *Clause, callee *ssa.Function, c *ssa.CallComm
 			f("*", nil, true)
 			return
 		}
-		if e.Name == "cursor" || e.Name == "fpos" {
+		if ghostFields[e.Name] {
 			f("G$"+e.Name, nil, true)
 			return
 		}
